@@ -31,7 +31,16 @@ def expected(ref1, ref2, vars1, vars2):
     return outcheck.concat_fields(e1, e2)
 
 
-def run_combine(mods, ref1, ref2, vars1, vars2, ctx, canary=False):
+def cli_argv(vars1, vars2, out='out'):
+    argv = ['combine', '--plotfile1', 'plt1', '--plotfile2', 'plt2', '--output', out]
+    if vars1 is not None:
+        argv += ['--vars1', vars1 if isinstance(vars1, str) else ' '.join(vars1)]
+    if vars2 is not None:
+        argv += ['--vars2', vars2 if isinstance(vars2, str) else ' '.join(vars2)]
+    return argv
+
+
+def run_combine(mods, ref1, ref2, vars1, vars2, ctx, canary=False, cli=False):
     comb = mods['amr_kitchen.combine.combine']
     PlotfileCooker = mods['amr_kitchen.plotfile_cooker'].PlotfileCooker
     Taster = mods['amr_kitchen.taste.taste'].Taster
@@ -40,10 +49,28 @@ def run_combine(mods, ref1, ref2, vars1, vars2, ctx, canary=False):
     ref2.write_symfs(fs, '/work/plt2')
     obl = Obl(ctx)
     what = 'combine(vars1=%r, vars2=%r)' % (vars1, vars2)
+    if cli:
+        what = ' '.join(repr(a) if ' ' in a else a for a in cli_argv(vars1, vars2))
     exp = expected(ref1, ref2, vars1, vars2)
     with patch.Patched(mods, fs), common.quiet():
         try:
-            comb.combine(PlotfileCooker('plt1'), PlotfileCooker('plt2'), pltout='out', vars1=vars1, vars2=vars2)
+            if cli:
+                # the command-line entry point (argparse wiring of -p1 / -p2 / -v1 / -v2 / -o)
+                import sys
+                old_argv = sys.argv
+                sys.argv = cli_argv(vars1, vars2)
+                try:
+                    mods['amr_kitchen.combine.cli'].main()
+                finally:
+                    sys.argv = old_argv
+            else:
+                comb.combine(PlotfileCooker('plt1'), PlotfileCooker('plt2'), pltout='out', vars1=vars1, vars2=vars2)
+        except SystemExit as e:
+            if exp is None and e.code not in (None, 0):
+                obl.holds(True, 'refused')
+            else:
+                obl.fail('%s exited with %r' % (what, e.code))
+            return obl, fs
         except Exception as e:
             if exp is None:
                 obl.holds(True, 'refused')
@@ -118,6 +145,18 @@ def run_case(case):
                 sig = 'C06/%s/%s/%s' % (lc, form, kind)
                 if sig not in viol:
                     viol[sig] = {'signature': sig, 'what': msg, 'vars': [vars1, vars2]}
+    # the command line: default selections and an explicit pair of selections (strings, as the shell hands them over)
+    for vars1, vars2 in [(None, None), (' '.join(f1[-1:]), ' '.join(f2[:2]))]:
+        def cpath(ctx, vars1=vars1, vars2=vars2):
+            return run_combine(mods, ref1, ref2, vars1, vars2, ctx, cli=True)[0]
+        results, exhaustive, stats = core.explore(cpath, max_paths=8)
+        res.add_explore(results, exhaustive, stats)
+        for ctx, obl in results:
+            res.add_obl(obl)
+            if obl.failed:
+                sig = 'C06/cli/%s' % lc
+                if sig not in viol:
+                    viol[sig] = {'signature': sig, 'what': obl.failed[0][0], 'vars': [vars1, vars2], 'cli': True}
     # mismatching meshes: must be refused before anything is written
     if case.get('mismatch'):
         for name, ref_bad in mismatches(mesh, case, lo, dx0):
@@ -168,6 +207,8 @@ def run_case(case):
             ref2.write_symfs(fs, '/work/plt2')
             run = ("from amr_kitchen.combine.combine import combine\nfrom amr_kitchen import PlotfileCooker\n"
                    "combine(PlotfileCooker('plt1'), PlotfileCooker('plt2'), pltout='out', vars1=%r, vars2=%r)\n" % tuple(v['vars']))
+            if v.get('cli'):
+                run = ("import sys\nfrom amr_kitchen.combine import cli\nsys.argv = %r\ncli.main()\n" % (cli_argv(v['vars'][0], v['vars'][1]),))
             exp = expected(ref1, ref2, *v['vars'])
             expd = {'kind': 'raise'} if exp is None else {'kind': 'tree', 'tree_exp': exp, 'compare': 'bits'}
         d = replay_lib.make_tool_replay('C06', sig, v['what'], {'plt1': (fs, '/work/plt1'), 'plt2': (fs, '/work/plt2')}, run, expd)
